@@ -32,6 +32,9 @@ type Program struct {
 	LoadS    float64
 	Files    []string
 	RepoDir  string
+	mapTypes map[string]*types.Map
+	InlinedSomewhere map[string]bool
+	Inv map[string][]*TypeInv // heap name -> type invariants on the values stored there
 }
 
 // Load loads the given package patterns from dir with the verif tag, builds SSA and parses contracts.
@@ -82,9 +85,78 @@ func Load(dir string, patterns []string, overlay map[string][]byte) (*Program, e
 		}
 	}
 	p.Files = files
+	// registry of map types (so that modifies clauses can name map heaps before first use)
+	p.mapTypes = map[string]*types.Map{}
+	for _, pk := range pkgs {
+		if pk.TypesInfo == nil {
+			continue
+		}
+		var reg func(t types.Type, depth int)
+		reg = func(t types.Type, depth int) {
+			if t == nil || depth > 6 {
+				return
+			}
+			switch u := t.Underlying().(type) {
+			case *types.Map:
+				p.mapTypes[typeStr(u)] = u
+				reg(u.Elem(), depth+1)
+			case *types.Pointer:
+				reg(u.Elem(), depth+1)
+			case *types.Slice:
+				reg(u.Elem(), depth+1)
+			case *types.Struct:
+				for i := 0; i < u.NumFields(); i++ {
+					reg(u.Field(i).Type(), depth+1)
+				}
+			}
+		}
+		for _, tv := range pk.TypesInfo.Types {
+			reg(tv.Type, 0)
+		}
+	}
 	p.Contr = ParseContracts(files)
 	p.Specs = p.Contr.Specs
 	p.Ghosts = p.Contr.Ghosts
+	p.InlinedSomewhere = map[string]bool{}
+	p.Inv = map[string][]*TypeInv{}
+	for i := range p.Contr.TypeInvs {
+		ti := &p.Contr.TypeInvs[i]
+		switch ti.Kind {
+		case "field", "fieldstore":
+			hs, err := p.expandHeaps([]string{ti.Path})
+			if err != nil || len(hs) != 1 {
+				p.Contr.Errors = append(p.Contr.Errors, fmt.Sprintf("%s:%d: typeinv field %s: cannot resolve to one field", ti.File, ti.Line, ti.Path))
+				continue
+			}
+			ti.Heap = hs[0]
+			ti.Typ = p.resolveType(ti.Path, nil)
+		case "mapval":
+			t := p.resolveType(ti.Path, nil)
+			var mt *types.Map
+			if t != nil {
+				mt, _ = t.Underlying().(*types.Map)
+			}
+			if mt == nil {
+				p.Contr.Errors = append(p.Contr.Errors, fmt.Sprintf("%s:%d: typeinv mapval %s: not a map type", ti.File, ti.Line, ti.Path))
+				continue
+			}
+			ti.Heap = mapHeap(mt)
+			ti.Typ = mt.Elem()
+		case "cellval":
+			t := p.resolveType(ti.Path, nil)
+			if t == nil {
+				p.Contr.Errors = append(p.Contr.Errors, fmt.Sprintf("%s:%d: typeinv cellval %s: unknown type", ti.File, ti.Line, ti.Path))
+				continue
+			}
+			ti.Heap = cellHeap(t)
+			ti.Typ = t
+		}
+		if ti.Typ == nil {
+			p.Contr.Errors = append(p.Contr.Errors, fmt.Sprintf("%s:%d: typeinv %s: cannot determine the value type", ti.File, ti.Line, ti.Path))
+			continue
+		}
+		p.Inv[ti.Heap] = append(p.Inv[ti.Heap], ti)
+	}
 	// index functions
 	for fn := range ssautil.AllFunctions(prog) {
 		p.funcs[fnName(fn)] = fn
